@@ -253,29 +253,7 @@ func c04Publication(c *Ctx, m *Module, pfx string) {
 		}
 	}
 
-	// ---- value add ------------------------------------------------------------------
-	add := m.Func("internal/counter", "Counter.add")
-	okCAS := len(callsIn(add, "(*sync/atomic.Uint64).CompareAndSwap")) == 1 && len(callsIn(add, "(*sync/atomic.Uint64).Load")) == 1
-	r.Check(pfx+".value-add", "Counter.add/load-CAS loop", m.Pos(add.Pos()), okCAS, "the mapped value changes only by CompareAndSwap of a freshly loaded value")
-	for _, fn := range m.PkgFuncs("internal/counter") {
-		for _, cs := range callsIn(fn, "(*sync/atomic.Uint64).Store", "(*sync/atomic.Uint64).Add", "(*sync/atomic.Uint64).Swap", "sync/atomic.StoreUint64", "sync/atomic.AddUint64") {
-			d := describeArg(cs, 0)
-			mapped := strings.Contains(d, ".count") || strings.Contains(d, "entryAt") || strings.Contains(d, "mapping.Data")
-			r.Check(pfx+".value-add", "blind store/add to a 64-bit atomic in "+fname(fn), m.Pos(cs.Pos()), !mapped, "counter values must only be CASed (saturating add); got "+calleeName(cs.Common())+" on "+d)
-		}
-	}
-	// saturation in add: sum < old ⇒ max
-	okSat := false
-	for _, in := range instrsOf(add) {
-		if phi, ok := in.(*ssa.Phi); ok {
-			for _, e := range phi.Edges {
-				if k, isC := intConst(e); isC && uint64(k) == ^uint64(0) {
-					okSat = true
-				}
-			}
-		}
-	}
-	r.Check(pfx+".value-add", "Counter.add/saturates instead of wrapping", m.Pos(add.Pos()), okSat, "on overflow the value written is ^uint64(0)")
+	c04ValueAdd(c, m, pfx+".value-add")
 
 	if pfx == "C04" {
 		c10ExtendTail(c, m, "C04.extend-tail")
@@ -503,4 +481,93 @@ func limitWordLoad(v ssa.Value) *ssa.Call {
 		}
 	}
 	return nil
+}
+
+// c04ValueAdd: the mapped 64-bit value changes only by a compare-and-swap whose new value is the
+// saturating sum computed from the very value the CAS expects (shared with C03.saturation).
+func c04ValueAdd(c *Ctx, m *Module, rule string) {
+	r := c.R
+	// ---- value add ------------------------------------------------------------------
+	add := m.Func("internal/counter", "Counter.add")
+	okCAS := len(callsIn(add, "(*sync/atomic.Uint64).CompareAndSwap")) >= 1 && len(callsIn(add, "(*sync/atomic.Uint64).Load")) >= 1
+	r.Check(rule, "Counter.add/load-CAS loop", m.Pos(add.Pos()), okCAS, "the mapped value changes only by CompareAndSwap of a freshly loaded value")
+	for _, fn := range m.PkgFuncs("internal/counter") {
+		for _, cs := range callsIn(fn, "(*sync/atomic.Uint64).Store", "(*sync/atomic.Uint64).Add", "(*sync/atomic.Uint64).Swap", "sync/atomic.StoreUint64", "sync/atomic.AddUint64") {
+			d := describeArg(cs, 0)
+			mapped := strings.Contains(d, ".count") || strings.Contains(d, "entryAt") || strings.Contains(d, "mapping.Data")
+			r.Check(rule, "blind store/add to a 64-bit atomic in "+fname(fn), m.Pos(cs.Pos()), !mapped, "counter values must only be CASed (saturating add); got "+calleeName(cs.Common())+" on "+d)
+		}
+	}
+	// saturation in add: sum < old ⇒ max
+	okSat := false
+	for _, in := range instrsOf(add) {
+		if phi, ok := in.(*ssa.Phi); ok {
+			for _, e := range phi.Edges {
+				if k, isC := intConst(e); isC && uint64(k) == ^uint64(0) {
+					okSat = true
+				}
+			}
+		}
+	}
+	r.Check(rule, "Counter.add/saturates instead of wrapping", m.Pos(add.Pos()), okSat, "on overflow the value written is ^uint64(0)")
+
+	// the CAS installs f(expected): the loads the new value is computed from are the loads the
+	// expected value comes from, edge by edge when both are merged at the retry
+	loadsOf := func(v ssa.Value) map[ssa.Value]bool {
+		out := map[ssa.Value]bool{}
+		for x := range backwardSlice(v, 40) {
+			if cl, ok := x.(*ssa.Call); ok && calleeName(&cl.Call) == "(*sync/atomic.Uint64).Load" {
+				out[cl] = true
+			}
+		}
+		return out
+	}
+	sameLoads := func(a, b ssa.Value) bool {
+		la, lb := loadsOf(a), loadsOf(b)
+		if len(la) == 0 || len(la) != len(lb) {
+			return false
+		}
+		for k := range la {
+			if !lb[k] {
+				return false
+			}
+		}
+		return true
+	}
+	for _, cs := range callsIn(add, "(*sync/atomic.Uint64).CompareAndSwap") {
+		oldV, newV := cs.Common().Args[1], cs.Common().Args[2]
+		okFresh := sameLoads(newV, oldV)
+		op, isOP := strip(oldV).(*ssa.Phi)
+		np, isNP := strip(newV).(*ssa.Phi)
+		if isOP && isNP && op.Block() == np.Block() {
+			okFresh = true
+			for i := range op.Edges {
+				if !sameLoads(np.Edges[i], op.Edges[i]) {
+					okFresh = false
+				}
+			}
+		}
+		r.Check(rule, "Counter.add/the value installed is computed from the value expected", m.Pos(cs.Pos()), okFresh,
+			"CompareAndSwap(old, f(old)): after a lost race the sum must be recomputed from the value just loaded (a stale sum overwrites other writers' increments)")
+	}
+	// every addition that produces a candidate value is followed by its overflow test
+	nAdd := 0
+	for _, in := range instrsOf(add) {
+		bo, ok := in.(*ssa.BinOp)
+		if !ok || bo.Op != token.ADD || !strings.Contains(bo.Type().String(), "uint64") {
+			continue
+		}
+		if len(loadsOf(bo)) == 0 {
+			continue
+		}
+		nAdd++
+		tested := false
+		for _, u := range referrers(bo) {
+			if cmp, ok := u.(*ssa.BinOp); ok && (cmp.Op == token.LSS || cmp.Op == token.GTR || cmp.Op == token.LEQ || cmp.Op == token.GEQ) {
+				tested = true
+			}
+		}
+		r.Check(rule, "Counter.add/sum tested for wrap-around", m.Pos(bo.Pos()), tested, "every old+n that can be installed must be compared with old (sum < old ⇒ saturate); an untested sum wraps at 2^64")
+	}
+	r.Check(rule, "Counter.add/sums enumerated", m.Pos(add.Pos()), nAdd >= 1, fmt.Sprintf("%d", nAdd))
 }
